@@ -239,3 +239,26 @@ Example C15_example_spoof_then_fallback :
   (* a client ignores the lot *)
   remotes (init false false 0) [Datagram ex_spoof; Datagram ex_spoof2; Timeout 9999] = [0; 0; 0; 0].
 Proof. vm_compute. repeat split; reflexivity. Qed.
+
+(** Defect found by the trace ledger (rule (e) of Sys/MonC15.v) and repaired in the code
+    (`fix: credit coalesced packets ...`): [handle_coalesced] credited the bytes behind the first
+    packet of a datagram to the current path whatever the datagram's source. With that credit the
+    bound is false — 1200 bytes came from address 66, two datagrams from elsewhere with 1149
+    coalesced bytes each raise its budget, 6000 bytes go to 66 — and with the repaired credit
+    (only from the path's own address) the invariant behind the bound is preserved. *)
+Theorem C15_coalesced_credit_refuted :
+  let s1 := handle_datagram (init true true 0) coalesced_witness in
+  let s2 := coalesced_unfixed (coalesced_unfixed s1 1149) 1149 in
+  match steps s2 [Transmit 1200 1 [1200]; Transmit 1200 10 [1200; 1200; 1200; 1200; 1200]] with
+  | Some s3 => remote (cur s3) = 66 /\ validated (cur s3) = false /\
+               AA.gr (aa (cur s3)) = 1200 /\ AA.gs (aa (cur s3)) = 6000 /\
+               3 * AA.gr (aa (cur s3)) + 1200 <= AA.gs (aa (cur s3))
+  | None => False
+  end.
+Proof. exact coalesced_credit_refuted. Qed.
+Print Assumptions C15_coalesced_credit_refuted.
+
+Theorem C15_coalesced_credit_fixed : forall mtu s from n,
+  0 <= n -> Inv s /\ Hist mtu s -> Inv (coalesced_fixed s from n) /\ Hist mtu (coalesced_fixed s from n).
+Proof. intros mtu s from n Hn [HI HH]. split; [apply coalesced_fixed_inv; exact HI|apply coalesced_fixed_hist; assumption]. Qed.
+Print Assumptions C15_coalesced_credit_fixed.
